@@ -221,6 +221,18 @@ func (r *Run) WaitEndOrWedge(progress func() int, idleSlices int, bound time.Dur
 	return false, false, nil
 }
 
+// CloseWithin calls Close from a goroutine of its own and reports whether it returned in time.
+func (r *Run) CloseWithin(d time.Duration) bool {
+	done := make(chan struct{})
+	go func() { r.C.Close(); close(done) }()
+	select {
+	case <-done:
+		return true
+	case <-time.After(d):
+		return false
+	}
+}
+
 // Snapshot returns a consistent copy of the delivered units.
 func (r *Run) Snapshot() ([]*gohlslib.Track, []Unit, [][]int) {
 	r.mu.Lock()
